@@ -201,7 +201,7 @@ def history(rep, ctx, work, k, rng, cache, d):
     policy = rng.choice(['immediate', 'manual', 'manual'])
     delays = None
     if rng.random() < 0.6:
-        delays = f'lsp.open.before_insert={rng.choice([0, 2000, 20000])},lsp.change.before_lookup={rng.choice([0, 2000, 20000])};seed={rng.randint(1, 10**6)}'
+        delays = f'lsp.open.before_insert={rng.choice([0, 2000, 20000])},lsp.change.before_lookup={rng.choice([0, 2000, 20000])},lsp.change.before_publish={rng.choice([0, 1, 3, 8])};seed={rng.randint(1, 10**6)}'
     play(rep, work, d, events, uris, state, policy, delays, k, rng, cache)
 
 
